@@ -73,6 +73,10 @@ func render(o OpT, val string, n int) string {
 		return fmt.Sprintf("import builtins\nbuiltins.len = lambda x: '%s'\n", val)
 	case "CallBuiltin":
 		return "print(len([7]))\n"
+	case "RebindStdout": // own_writer is a second capturing writer the harness put into the context's __main__
+		return "import sys\nsys.stdout = own_writer\n"
+	case "Print":
+		return fmt.Sprintf("print('%s')\n", val)
 	case "SetTypeAttr":
 		return fmt.Sprintf("%s.tattr%d = '%s'\n", t, n, val)
 	case "GetTypeAttr":
@@ -98,6 +102,7 @@ type cx struct {
 	name   string
 	pc     *pyrun.Ctx
 	rp     *repl.REPL
+	own    *pyrun.Writer // the writer RebindStdout installs as sys.stdout
 	script []int
 	tag    string // "b<n>." prefix of every value of this case
 	n      int
@@ -157,6 +162,8 @@ func (c *cx) create() {
 	c.pc = &pyrun.Ctx{Ctx: ctx, Out: out}
 	c.rp = repl.New(ctx)
 	c.rp.SetUI(termUI{c})
+	c.own = &pyrun.Writer{}
+	c.rp.Module.Globals["own_writer"] = c.own
 	if !c.free {
 		gated.Store(ctx, c)
 	}
@@ -178,10 +185,27 @@ func (c *cx) yield() {
 	}
 }
 
+// collectStray: text that arrived in one of this context's writers while it was not running an operation
+// was printed by another context.
+func (c *cx) collectStray() {
+	if c.pc == nil {
+		return
+	}
+	t := c.pc.Out.String() + c.own.String()
+	c.pc.Out.Reset()
+	c.own.Reset()
+	if t != "" {
+		c.mu.Lock()
+		c.obs = append(c.obs, realEntry{Entry: Entry{K: "stray", I: 0, V: strings.ReplaceAll(strings.TrimSuffix(t, "\n"), "\n", "/")}})
+		c.mu.Unlock()
+	}
+}
+
 func (c *cx) runOp(i int) {
 	if c.pc == nil {
 		c.create()
 	}
+	c.collectStray()
 	o := opList[c.script[i]-1]
 	val := c.tag + c.name + ":" + fmt.Sprint(i+1)
 	src := render(o, val, c.n)
@@ -215,7 +239,6 @@ func (c *cx) runOp(i int) {
 		c.mu.Unlock()
 		return
 	}
-	c.pc.Out.Reset()
 	var (
 		rerr error
 		pnc  string
@@ -234,7 +257,19 @@ func (c *cx) runOp(i int) {
 		_, rerr = c.pc.Ctx.RunCode(code, c.rp.Module.Globals, c.rp.Module.Globals, nil)
 	}()
 	var segs []string
-	if out := c.pc.Out.String(); out != "" {
+	std, own := c.pc.Out.String(), c.own.String()
+	c.pc.Out.Reset()
+	c.own.Reset()
+	if o.Op == "Print" {
+		// the observation names the writer of this context that received the text
+		if std != "" {
+			std = "std:" + std
+		}
+		if own != "" {
+			own = "own:" + own
+		}
+	}
+	if out := std + own; out != "" {
 		segs = strings.Split(strings.TrimSuffix(out, "\n"), "\n")
 	}
 	e := realEntry{Entry: Entry{K: "op", I: i + 1}}
@@ -266,6 +301,7 @@ func (c *cx) loop(done *sync.WaitGroup) {
 }
 
 func (c *cx) observed() []realEntry {
+	c.collectStray()
 	c.mu.Lock()
 	defer c.mu.Unlock()
 	out := make([]realEntry, len(c.obs))
@@ -353,7 +389,10 @@ func judge(c *Case, got map[string][]realEntry) *divergence {
 				} else {
 					e = got[n][i].Entry
 				}
-				if e.K == "echo" || (i < len(got[n]) && got[n][i].K == "echo") {
+				if i < len(got[n]) && got[n][i].K == "stray" {
+					// text printed by another context arrived in one of this context's writers
+					op = "Print"
+				} else if e.K == "echo" || (i < len(got[n]) && got[n][i].K == "echo") {
 					// an echo the model did not expect here (or expected and missing) is always vm.PrintExpr's doing
 					op = "ReplLine"
 				} else if e.I >= 1 && e.I <= len(c.Script[n]) {
@@ -491,15 +530,14 @@ func soloWorker(jobFile string) {
 	b, err := os.ReadFile(jobFile)
 	var job stressJob
 	if err != nil || json.Unmarshal(b, &job) != nil || len(job.Cases) != 1 {
-		fmt.Println("error")
-		return
+		os.Exit(11)
 	}
 	opList, meta = job.OpList, job.Meta
 	initRuntime(job.Scratch)
 	if replayCase(job.Cases[0], 1, true) == nil {
-		fmt.Println("match")
+		os.Exit(0)
 	} else {
-		fmt.Println("diverge")
+		os.Exit(10)
 	}
 }
 
@@ -671,5 +709,8 @@ feed:
 	bg.Wait()
 	res.Compiles = int(atomic.LoadInt64(&compiles))
 	out, _ := json.Marshal(res)
-	os.Stdout.Write(out)
+	if err := os.WriteFile(os.Getenv("GPV_C08_RESULT"), out, 0o644); err != nil {
+		fmt.Fprintln(os.Stderr, "stress worker: cannot write result:", err)
+		os.Exit(3)
+	}
 }
